@@ -137,6 +137,9 @@ theorem pv_ni : ∀ v : GV, v.plainIn = true → pv td c ρ₁ false true v = pv
   | .struct fs, h => by
     simp only [GV.plainIn] at h
     simp only [pv, hw, Bool.and_false, Bool.false_eq_true, if_false]; exact pvF_ni fs h
+  | .tm _ _ fs, h => by
+    simp only [GV.plainIn] at h
+    simp only [pv, hw, Bool.and_false, Bool.false_eq_true, if_false]; exact pvF_ni fs h
 theorem pvL_ni : ∀ vs : List GV, GV.plainInL vs = true → pvL td c ρ₁ true vs = pvL td c ρ₂ true vs
   | [], _ => rfl
   | v :: vs, h => by
@@ -194,6 +197,9 @@ theorem pa_ni (hp : (c.verb == 'p') = false) (v0 : GV) (h : v0.plainTop = true) 
       simp only [GV.plainIn] at h
       simp only [pv, Bool.not_true, Bool.false_and, Bool.false_eq_true, if_false]; exact pvKV_ni hc hF c hw ρ₁ ρ₂ kvs h
     | struct fs =>
+      simp only [GV.plainIn] at h
+      simp only [pv, Bool.not_true, Bool.false_and, Bool.false_eq_true, if_false]; exact pvF_ni hc hF c hw ρ₁ ρ₂ fs h
+    | tm o vv fs =>
       simp only [GV.plainIn] at h
       simp only [pv, Bool.not_true, Bool.false_and, Bool.false_eq_true, if_false]; exact pvF_ni hc hF c hw ρ₁ ρ₂ fs h
 
@@ -273,7 +279,7 @@ theorem C14_paths : ∀ p ∈ knownPaths, p ≠ ("json", Pos.mapKey) →
     ∀ s : String, pathText realTD p.1 p.2 s = Opaque.marker := by
   intro p hp hne s
   simp only [knownPaths, List.mem_cons, List.mem_nil_iff, or_false] at hp
-  rcases hp with rfl | rfl | rfl | rfl | rfl | rfl | rfl | rfl | rfl | rfl | rfl <;>
+  rcases hp with rfl | rfl | rfl | rfl | rfl | rfl | rfl | rfl | rfl | rfl | rfl | rfl | rfl | rfl | rfl | rfl <;>
     first | rfl | exact absurd rfl hne
 
 /-- `encoding/json` takes a map key of string kind from the raw string before it looks for
@@ -335,6 +341,7 @@ theorem isZero_ni : ∀ v : GV, isZero ρ₁ v = isZero ρ₂ v
   | .map _ => rfl
   | .nilMap => rfl
   | .struct fs => by simp only [isZero, isZeroF_ni fs]
+  | .tm _ _ fs => by simp only [isZero, isZeroF_ni fs]
 theorem isZeroL_ni : ∀ vs : List GV, isZeroL ρ₁ vs = isZeroL ρ₂ vs
   | [] => rfl
   | v :: vs => by simp only [isZeroL, isZero_ni v, isZeroL_ni vs]
@@ -361,6 +368,7 @@ theorem enc_ni : ∀ v : GV, enc td ρ₁ v = enc td ρ₂ v
   | .map kvs => by simp only [enc, encKV_ni kvs []]
   | .nilMap => rfl
   | .struct fs => by simp only [enc, encF_ni fs []]
+  | .tm _ vv fs => by cases vv <;> simp only [enc, encF_ni fs [], if_true, Bool.false_eq_true, if_false]
 theorem encL_ni : ∀ vs : List GV, encL td ρ₁ vs = encL td ρ₂ vs
   | [] => rfl
   | v :: vs => by simp only [encL, enc_ni v, encL_ni vs]
